@@ -1159,12 +1159,13 @@ class MorphFactory:
         Returns:
             List of dependent generators.
         """
-        self.legs = legs.copy()
+        self.legs = [leg.copy() for leg in legs]
         self.is_check = True
         dependents = []
 
         for g in generators:
-            self.legs = legs.copy()
+            self.legs = [leg.copy() for leg in legs]
+            self.delayed_vertices = []
             try:
                 self._pipeline(g)
             except CheckAppendedException:
